@@ -51,7 +51,9 @@ def two_qubit_matrix_to_ion_operations(
     """
     kak = linalg.kak_decomposition(mat, atol=atol)
     operations = _kak_decomposition_to_operations(q0, q1, kak, atol)
-    return two_qubit_to_cz.cleanup_operations(operations) if clean_operations else operations
+    if clean_operations:
+        return two_qubit_to_cz.cleanup_operations(operations, atol=atol)
+    return operations
 
 
 def _kak_decomposition_to_operations(
